@@ -286,6 +286,39 @@ def generate(loader):
                "   input (xmin, xmax) and target (tmin, tmax) and abstract binary min / max *)\n"
                "Definition gen_mi_default_range (fmin2 fmax2 : K -> K -> K) (xmin xmax tmin tmax : K) : K * K :=\n"
                f"  ({emit_range(ranges['mi_loss'][0])}, {emit_range(ranges['mi_loss'][1])}).\n")
+    # ---- NormalizedPairwiseImageLoss: which images the default normalisation factor is computed from --------------
+    Bm = loader.load("deepali.losses.base")
+
+    class _MD:
+        def __init__(self, a, b):
+            self.a, self.b = a, b
+
+        def square(self):
+            return f"max_difference({self.a}, {self.b})^2"
+    saved_b = (Bm.max_difference, Bm.Tensor)
+    Bm.max_difference = lambda a, b: _MD(a, b)
+    Bm.Tensor = object
+
+    class _NL(Bm.NormalizedPairwiseImageLoss):
+        def forward(self, *a, **k):
+            return None
+    norm_rows = []
+    try:
+        for tag, kw in (("source", dict(source="source")), ("target", dict(target="target")),
+                        ("source, target", dict(source="source", target="target")),
+                        ("target, norm=True", dict(target="target", norm=True)),
+                        ("source, norm=True", dict(source="source", norm=True)),
+                        ("source, target, norm=False", dict(source="source", target="target", norm=False)),
+                        ("norm=c", dict(norm="c")), ("source, target, norm=c", dict(source="source", target="target", norm="c")),
+                        ("nothing", dict())):
+            if kw.get("norm") == "c":
+                kw = dict(kw, norm=2.5)
+            v = _NL(**kw).norm
+            norm_rows.append((tag, "c" if v == 2.5 else str(v)))
+    finally:
+        Bm.max_difference, Bm.Tensor = saved_b
+    rows = ";\n".join(f'  ("{t}"%string, "{k}"%string)' for t, k in norm_rows)
+    norm_table = f"(* NormalizedPairwiseImageLoss(...).norm for each way of constructing it *)\nDefinition gen_norm_defaults : list (string * string) := [\n{rows}].\n"
     # default epsilons and kernel size
     import inspect
     defaults = {}
@@ -299,4 +332,5 @@ def generate(loader):
     out.append(f"Definition gen_loss_raises : list (string * string) := [\n{rows}].\n")
     rows = ";\n".join(f'  ("{f}.{p}"%string, "{v!r}"%string)' for (f, p), v in sorted(defaults.items()))
     out.append(f"Definition gen_loss_defaults : list (string * string) := [\n{rows}].\n")
+    out.append(norm_table)
     return "\n".join(out)
